@@ -1,5 +1,12 @@
 package exec
 
+import (
+	"fmt"
+
+	"golang.org/x/tools/go/ssa"
+)
+
+
 // Monitors: write-set / freshness tracking and lock-set tracking (DESIGN 2.4).
 
 type monitor struct {
@@ -30,6 +37,7 @@ func (e *Exec) monWrite(p Ptr) {
 }
 
 func (e *Exec) monWriteMap(m *MapObj) {
+	e.locksetMapAccess(m, true)
 	if m.Frozen {
 		e.unsupported("write to shared (once-initialised) stdlib map")
 	}
@@ -77,31 +85,114 @@ func itoa(i int) string {
 
 func (e *Exec) locksetAccess(p Ptr, write bool) {
 	lw := e.lockWatch
+	if lw.paused || e.atomicDepth > 0 {
+		return
+	}
 	mu, ok := lw.objs[p.Obj]
 	if !ok {
 		return
 	}
-	// accesses to the mutex itself and to exempt fields are ignored
 	pk := pathKey(p.Path)
 	for _, ex := range lw.exempt {
 		if len(pk) >= len(ex) && pk[:len(ex)] == ex {
 			return
 		}
 	}
+	lw.accesses++
 	st := e.locks[mu]
-	if write && st != -1 || !write && st == 0 {
+	if (write && st != -1) || (!write && st == 0) {
 		kind := "read"
 		if write {
 			kind = "write"
 		}
-		lw.bad = append(lw.bad, kind+" of "+p.Obj.Site+pk+" without lock")
+		held := "no lock held"
+		if st > 0 {
+			held = "only a read lock held"
+		}
+		lw.bad = append(lw.bad, kind+" of "+p.Obj.Site+pk+" with "+held)
+	}
+}
+
+func (e *Exec) locksetMapAccess(m *MapObj, write bool) {
+	lw := e.lockWatch
+	if lw == nil || lw.paused {
+		return
+	}
+	mu, ok := lw.maps[m]
+	if !ok {
+		return
 	}
 	lw.accesses++
+	st := e.locks[mu]
+	if (write && st != -1) || (!write && st == 0) {
+		kind := "read"
+		if write {
+			kind = "write"
+		}
+		lw.bad = append(lw.bad, fmt.Sprintf("%s of map#%d without a sufficient lock", kind, m.ID))
+	}
 }
 
 type lockWatch struct {
 	objs     map[*Obj]lockKey
+	maps     map[*MapObj]lockKey
 	exempt   []string
 	bad      []string
 	accesses int
+	paused   bool
+}
+
+func init() {
+	// vxLocksetWatch(obj any, mu any): from now on every plain access to a field of *obj must happen
+	// while *mu is held in a sufficient mode (write: Lock; read: Lock or RLock)
+	vxAPI["vxLocksetWatch"] = func(e *Exec, fn *ssa.Function, a []Value) Value {
+		if e.lockWatch == nil {
+			e.lockWatch = &lockWatch{objs: map[*Obj]lockKey{}, maps: map[*MapObj]lockKey{}}
+		}
+		mu := e.lockKeyOf(a[1].(Iface).V)
+		switch x := a[0].(Iface).V.(type) {
+		case Ptr:
+			e.lockWatch.objs[x.Obj] = mu
+		case MapV:
+			if x.M != nil {
+				e.lockWatch.maps[x.M] = mu
+			}
+		default:
+			e.unsupported("vxLocksetWatch: unsupported object")
+		}
+		return nil
+	}
+	vxAPI["vxLocksetExempt"] = func(e *Exec, fn *ssa.Function, a []Value) Value {
+		s, _ := e.goString(a[0].(Str))
+		if e.lockWatch != nil {
+			e.lockWatch.exempt = append(e.lockWatch.exempt, s)
+		}
+		return nil
+	}
+	// vxLocksetPause(b): the harness's own inspection of the object is not subject to the discipline
+	vxAPI["vxLocksetPause"] = func(e *Exec, fn *ssa.Function, a []Value) Value {
+		if e.lockWatch != nil {
+			e.lockWatch.paused = a[0].(Bool).C
+		}
+		return nil
+	}
+	// vxLocksetBad() int: number of accesses that violated the discipline so far; vxLocksetHeld(mu) bool
+	vxAPI["vxLocksetBad"] = func(e *Exec, fn *ssa.Function, a []Value) Value {
+		if e.lockWatch == nil {
+			return mkInt(64, 0)
+		}
+		for _, b := range e.lockWatch.bad {
+			e.tags = append(e.tags, "lockset: "+b)
+		}
+		return mkInt(64, uint64(len(e.lockWatch.bad)))
+	}
+	vxAPI["vxLocksetAccesses"] = func(e *Exec, fn *ssa.Function, a []Value) Value {
+		if e.lockWatch == nil {
+			return mkInt(64, 0)
+		}
+		return mkInt(64, uint64(e.lockWatch.accesses))
+	}
+	vxAPI["vxLockHeld"] = func(e *Exec, fn *ssa.Function, a []Value) Value {
+		return Bool{C: e.locks[e.lockKeyOf(a[0].(Iface).V)] != 0}
+	}
 }
